@@ -319,6 +319,12 @@ func genDoc(r *core.Rand) [][]gField {
 		used := map[string]bool{}
 		for nf := r.Range(1, 4); nf > 0; nf-- {
 			name := r.Pick(fieldNames)
+			if r.Chance(1, 12) {
+				// a name built around a word the control package itself spells out
+				if t := r.LitToken("control", name, ": \t\r\n#,"); t != "" && t[0] != '-' {
+					name = t
+				}
+			}
 			if used[name] {
 				continue
 			}
